@@ -204,6 +204,11 @@ def scenarios():
     # non-default setting plot_split: a .pdf target becomes one file per figure
     add("writer:plot-pdf-split", _writer(export_split), "plots.pdf",
         outputs=lambda t: ["plots_first.pdf", "plots_second.pdf"], cost="plot")
+    # a target without file extension: matplotlib appends its default format
+    add("writer:plot-noext", _writer(lambda t, w: _figs().export(
+        str(t), confirm_overwrite=w)), "plotsx",
+        outputs=lambda t: ["plotsx_first.png", "plotsx_second.png"],
+        cost="plot")
     add("writer:serialize", _writer(lambda t, w: _figs().serialize(
         str(t), confirm_overwrite=w)), "plots.pickle", cost="plot")
 
